@@ -6,7 +6,7 @@ import itertools
 from hypothesis import strategies as st
 
 from .. import sgr
-from ..cells import cells
+from ..cells import PlainSub, cells
 from ..common import Res, call, exc_str, hyp_campaign
 
 PROP = "C17"
@@ -77,6 +77,9 @@ def run_case(case):
     from curtsies.formatstring import FmtStr, fmtstr
 
     s, expect_text = build_string(case)
+    if case.get("sub"):
+        s = PlainSub(s)  # an instance of a str subclass (a marker type overriding nothing) is a str
+        res.label("str_subclass_instance")
     has_intro = any(c in s for c in INTRO)
     if has_intro:
         first = min(s.find(c) for c in INTRO if c in s)
@@ -141,7 +144,13 @@ def strategy():
     # SGR numbers the parser does not know
     unknown_sgr = st.tuples(st.just("csi"), st.tuples(st.sampled_from([[90], [97], [20], [22], [100], [90, 1]]), st.just("m")).map(list)).map(list)
     long_ = st.lists(st.one_of(txt, csi, unknown_sgr, unknown_sgr), min_size=18, max_size=45)
-    return st.fixed_dictionaries({"tokens": st.one_of(pure, mixed, pure, mixed, long_)})
+    # tight: introducers, sequences and single characters from the ranges escape-sequence grammars care about (final
+    # bytes @-~, intermediates, digits), packed with nothing in between - what one sequence leaves behind meets the next
+    edge = st.tuples(st.just("t"), st.sampled_from(list("ABHJKMZ@[\\]^_`amz~ 019;?\n"))).map(list)
+    bare = st.tuples(st.just("raw"), st.sampled_from(["\x1b", "\x1b", "\x9b", "\x1b\x1b", "\x1b["])).map(list)
+    tight = st.lists(st.one_of(edge, edge, bare, unknown_sgr, csi), min_size=3, max_size=7)
+    tokens = st.one_of(pure, mixed, pure, mixed, long_, tight, tight)
+    return st.fixed_dictionaries({"tokens": tokens, "sub": st.sampled_from([0, 0, 0, 0, 1])})
 
 
 REAL_WORLD = [
@@ -176,6 +185,8 @@ def campaign(col, tier, seed, shard, nshards):
             if i % nshards != shard:
                 continue
             case = {"s": "".join(tup)}
+            if i % 5 == 0:
+                case["sub"] = 1
             res = run_case(case)
             unknown = col.record(case, res, distinct=True, sample=(i % 7919 == 3))
             if unknown:
